@@ -3,3 +3,14 @@ import Peppi.Props.C13
 #print axioms Peppi.Props.C13.colsOf_rowView
 #print axioms Peppi.Props.C13.toCols_row
 #print axioms Peppi.Props.C13.items_slice
+#print axioms Peppi.Props.C13.views_End
+#print axioms Peppi.Props.C13.views_Item
+#print axioms Peppi.Props.C13.views_ItemMisc
+#print axioms Peppi.Props.C13.views_Position
+#print axioms Peppi.Props.C13.views_Post
+#print axioms Peppi.Props.C13.views_Pre
+#print axioms Peppi.Props.C13.views_Start
+#print axioms Peppi.Props.C13.views_StateFlags
+#print axioms Peppi.Props.C13.views_TriggersPhysical
+#print axioms Peppi.Props.C13.views_Velocities
+#print axioms Peppi.Props.C13.views_Velocity
